@@ -1350,6 +1350,8 @@ class C11(core.Check):
                 "c11.cyl FourCoreDisk 0/1,0/1,0/1 0/1,0/1,1/1 1/1,0/1,0/1 0/1 7/10 4/5 9/10",
                 "c11.gridpts 0/1 0/1 1/1 1/1 0 2",
                 "c11.joint 1",
+                "c11.extrg 0/1 0/1 1/1 1/1 0 2 1/1",
+                "c11.extrw 0/1,0/1,0/1 1/1,0/1,0/1 0/1,0/1,1/1 7/10 9/10 1/2 0/1 1/1",
             ]
         if case["kind"] == "Pts":
             return [impl["req"]] if "req" in impl else []
